@@ -3,7 +3,9 @@
 Domain : as C01 (vf.pipeline configurations: Colang 1.0 / 2.x, dialog rails on/off, rails exceptions on/off, v2 rails in
          config.yml or hand-written) with 1-3 output rails (check / rewrite / block-or-rewrite / shipped `self check output`)
          and 0-2 input rails; conversations of 2-5 turns in which any turn may be the one that is rejected or
-         rewritten; routes alternate predefined and LLM-generated bot messages (v1 `$skip_output_rails`).
+         rewritten; routes alternate predefined and LLM-generated bot messages (v1 `$skip_output_rails`); in later turns
+         the LLM may repeat verbatim the message text(s) it produced in an earlier turn (turn key `repeat_llm`) - the
+         repeated text is checked material of the new turn under the new turn's verdicts.
 Oracle : reference model of the output chain (vf.pipeline.model_output) per LLM-generated text, memoryless over
          turns (= the history invariant: the chain of turn t is a function of turn t's verdicts only), checked on
          the rail-action trace and on the returned reply:
@@ -58,6 +60,8 @@ def _case(draw):
     cfg["exc"] = draw(st.sampled_from([False, False, True]))
     if v == 1:
         cfg["ret"] = 0
+        if draw(st.sampled_from([False, False, False, False, True])):
+            cfg["passthrough"] = True
     else:
         cfg["style"] = draw(st.sampled_from(["config", "hand"]))
     routes = pipeline.routes_for(cfg)
@@ -162,6 +166,8 @@ def _check(case, obs):
         labels.append("v2-" + cfg.get("style", "config"))
     if "self" in cfg["out"]:
         labels.append("shipped-self-check-output")
+    if cfg.get("passthrough"):
+        labels.append("passthrough" + ("+dialog" if cfg["dialog"] else ""))
     events_at = []  # turns in which an output rail rejected or rewrote an LLM text
     llm_turns = []  # turns in which the LLM generated a message
     prev_kind = None
